@@ -7,7 +7,7 @@
     The change strategy is an arbitrary function ([change]); no conservation property of it is
     assumed — the balance of a step is what Step::from_parts checks. *)
 From V.Lib Require Import Base.
-From V.C08 Require Import Sql Model ModelT Spec Corr Wf ProofsSql ProofsSel ProofsProp ProofsGreedy ProofsAnchor ProofsSeq ProofsT Bridge.
+From V.C08 Require Import Sql Model ModelT ModelP Spec Corr Wf ProofsSql ProofsSel ProofsProp ProofsGreedy ProofsAnchor ProofsSeq ProofsT Bridge.
 From V.Gen Require Import C08SqlPred.
 Local Open Scope Z_scope.
 
@@ -104,15 +104,28 @@ Proof. exact lock_outputs_holds. Qed.
 (** ... and such outputs are not taken by any later proposal that does not name the owner, while
     the lock has not expired. *)
 Theorem C08_locked_proposal_not_reused :
-  forall change fuel tip owner expiry refs db db' e tip' acct pay sp oo permitted pol lp lock canon steps s x,
-  NoDup (rrefs db) -> 1 <= p_trusted pol -> p_trusted pol <= p_untrusted pol ->
+  forall change fuel tip owner expiry refs db db' udb e tip' acct pay sp oo permitted pol zc lp tspend lock canon steps s x,
+  NoDup (rrefs db) -> NoDup (map u_id udb) -> 1 <= p_trusted pol -> p_trusted pol <= p_untrusted pol ->
   (forall ci, canon = Some ci -> 0 < c_interval ci) ->
   (forall ci sa, canon = Some ci -> c_sel_anchor ci = Some sa -> sa <= c_boundary ci) ->
   lock_outputs tip owner expiry refs db = Some db' ->
   e_target e <= expiry -> ~ In owner (overridable (LFPolicy lp)) ->
-  propose_transfer change fuel db' e tip' acct pay sp oo permitted pol lp lock canon = Ok steps ->
+  propose_transfer change fuel db' udb e tip' acct pay sp oo permitted pol zc lp tspend lock canon = Ok steps ->
   In s steps -> In x (s_inputs s) -> ~ In x refs.
 Proof. exact locked_proposal_not_reused. Qed.
+
+(** The same for the coins of a transfer under a TransparentSpendPolicy: a coin carrying a live lock of
+    an owner the CALL's policy does not name is in no step (first gather and re-gather alike). *)
+Theorem C08_locked_utxo_not_reused :
+  forall change fuel db udb e tip acct pay sp oo permitted pol zc lp tspend lock canon steps s u x,
+  NoDup (rrefs db) -> NoDup (map u_id udb) -> 1 <= p_trusted pol -> p_trusted pol <= p_untrusted pol ->
+  (forall ci, canon = Some ci -> 0 < c_interval ci) ->
+  (forall ci sa, canon = Some ci -> c_sel_anchor ci = Some sa -> sa <= c_boundary ci) ->
+  In u udb -> u_lock u = Some x -> e_target e <= x ->
+  (forall o, u_owner u = Some o -> ~ In o (overridable (LFPolicy lp))) ->
+  propose_transfer change fuel db udb e tip acct pay sp oo permitted pol zc lp tspend lock canon = Ok steps ->
+  In s steps -> ~ In (u_id u) (s_tins s).
+Proof. exact locked_utxo_not_reused. Qed.
 
 (** *** Proposals *)
 
@@ -123,29 +136,31 @@ Proof. exact locked_proposal_not_reused. Qed.
     the CALLER's policy, mined at or below the anchor THE STEP BINDS, not locked by another owner;
     the step's value is their sum and inputs = payments + change + fee. *)
 Theorem C08_proposal_sound :
-  forall change fuel db e tip acct pay single_payment orchard_out permitted pol lp lock canon steps,
-  NoDup (rrefs db) -> 1 <= p_trusted pol -> p_trusted pol <= p_untrusted pol ->
+  forall change fuel db udb e tip acct pay single_payment orchard_out permitted pol zc lp tspend lock canon steps,
+  NoDup (rrefs db) -> NoDup (map u_id udb) -> 1 <= p_trusted pol -> p_trusted pol <= p_untrusted pol ->
   (forall ci, canon = Some ci -> 0 < c_interval ci) ->
   (forall ci sa, canon = Some ci -> c_sel_anchor ci = Some sa -> sa <= c_boundary ci) ->
-  propose_transfer change fuel db e tip acct pay single_payment orchard_out permitted pol lp lock canon = Ok steps ->
+  propose_transfer change fuel db udb e tip acct pay single_payment orchard_out permitted pol zc lp tspend lock canon = Ok steps ->
   NoDup (concat (map s_inputs steps))
   /\ forall s, In s steps ->
-       exists a inputs,
+       exists a inputs tins,
          s_anchor s = Some a /\ s_inputs s = rrefs inputs /\ NoDup (rrefs inputs)
-         /\ s_in_value s = sum_values inputs /\ s_tins s = [] /\ s_pay s = pay /\ step_balanced s = true
-         /\ forall r, In r inputs ->
-              In r db /\ input_ok acct (e_target e) a pol (overridable (LFPolicy lp)) permitted r.
+         /\ s_tins s = map u_id tins /\ NoDup (map u_id tins)
+         /\ s_in_value s = sum_utxos tins + sum_values inputs /\ s_pay s = pay /\ step_balanced s = true
+         /\ (forall r, In r inputs ->
+              In r db /\ input_ok acct (e_target e) a pol (overridable (LFPolicy lp)) permitted r)
+         /\ (forall u, In u tins -> tinput_ok udb (e_target e) acct pol zc lp tspend u).
 Proof. exact proposal_inputs_at_step_anchor. Qed.
 
 (** ... and, in full, which attempt produced each step and that its rows are spendable (including
     witnessable) at the anchor the data source selected at. *)
 Theorem C08_proposal_origin :
-  forall change fuel db e tip acct pay single_payment orchard_out permitted pol lp lock canon steps,
-  NoDup (rrefs db) -> 1 <= p_trusted pol -> p_trusted pol <= p_untrusted pol ->
+  forall change fuel db udb e tip acct pay single_payment orchard_out permitted pol zc lp tspend lock canon steps,
+  NoDup (rrefs db) -> NoDup (map u_id udb) -> 1 <= p_trusted pol -> p_trusted pol <= p_untrusted pol ->
   (forall ci, canon = Some ci -> 0 < c_interval ci) ->
-  propose_transfer change fuel db e tip acct pay single_payment orchard_out permitted pol lp lock canon = Ok steps ->
+  propose_transfer change fuel db udb e tip acct pay single_payment orchard_out permitted pol zc lp tspend lock canon = Ok steps ->
   NoDup (concat (map s_inputs steps))
-  /\ forall s, In s steps -> step_origin db e acct pay orchard_out permitted pol lp canon s.
+  /\ forall s, In s steps -> step_origin db udb e acct pay orchard_out permitted pol zc lp tspend canon s.
 Proof. exact propose_transfer_sound. Qed.
 
 (** The bucketed policy is stricter than the caller's and anchors on a grid boundary above activation. *)
@@ -164,31 +179,35 @@ Proof. exact pool_preference_permitted. Qed.
 
 (** insufficient_errs: when the spendable rows are worth less than the payments, no proposal. *)
 Theorem C08_insufficient_errs :
-  forall change db e acct pay prefs pol lp iw step_anchor single,
+  forall change ton tgather db e acct pay prefs pol lp iw step_anchor single,
   NoDup (rrefs db) -> 1 <= p_trusted pol -> p_trusted pol <= p_untrusted pol ->
+  (forall t, NoDup (map u_id (tgather t))) ->
   (forall r, In r db -> 0 <= r_value r) ->
-  forall fuel s,
+  forall fuel s tbound,
   change_nonneg change ->
-  sum_values (filter (okrowb e acct prefs pol lp) db) < pay ->
-  propose_transaction change db e acct pay prefs pol lp iw step_anchor single fuel <> Ok s.
+  (forall tins, tgood ton tgather tins -> sum_utxos tins <= tbound) ->
+  sum_values (filter (okrowb e acct prefs pol lp) db) + tbound < pay ->
+  propose_transaction change ton tgather db e acct pay prefs pol lp iw step_anchor single fuel <> Ok s.
 Proof. exact insufficient_is_error. Qed.
 
 (** greedy_terminates: fuel above the wallet's total value is never exhausted (the loop's own
     argument: the selected value strictly increases and is bounded), and more fuel does not change
     a result. *)
 Theorem C08_greedy_terminates :
-  forall change db e acct pay prefs pol lp iw step_anchor single,
+  forall change ton tgather db e acct pay prefs pol lp iw step_anchor single,
   NoDup (rrefs db) -> 1 <= p_trusted pol -> p_trusted pol <= p_untrusted pol ->
   (forall r, In r db -> 0 <= r_value r) ->
   forall fuel,
+  ton = false ->
   sum_values db < Z.of_nat fuel ->
-  propose_transaction change db e acct pay prefs pol lp iw step_anchor single fuel <> Err EOutOfFuel.
+  propose_transaction change ton tgather db e acct pay prefs pol lp iw step_anchor single fuel <> Err EOutOfFuel.
 Proof. exact greedy_terminates. Qed.
 
 Theorem C08_greedy_fuel_irrelevant :
-  forall change db e acct pay prefs pol lp iw step_anchor single fuel sel prior req excl r,
-  greedy change db e acct pay prefs pol lp iw step_anchor single fuel sel prior req excl = r -> r <> Err EOutOfFuel ->
-  greedy change db e acct pay prefs pol lp iw step_anchor single (S fuel) sel prior req excl = r.
+  forall change ton tgather db e acct pay prefs pol lp iw step_anchor single fuel sel tins tdust ag prior req excl r,
+  greedy change ton tgather db e acct pay prefs pol lp iw step_anchor single fuel sel tins tdust ag prior req excl = r ->
+  r <> Err EOutOfFuel ->
+  greedy change ton tgather db e acct pay prefs pol lp iw step_anchor single (S fuel) sel tins tdust ag prior req excl = r.
 Proof. exact greedy_fuel_mono. Qed.
 
 (** *** Bridge: correspondence => property, for select_spendable_notes(AtLeast) cases *)
@@ -207,15 +226,15 @@ Proof. exact bridge_lock. Qed.
 (** For propose_transfer cases the bridge needs, when a canonical attempt is possible, that the data
     source's anchor under the bucketed policy IS the boundary ([canon_sel_at_boundary]); prop_case
     checks witnessability at the anchor the step binds, the theorems prove it at the selection anchor. *)
-Theorem C08_bridge_propose : forall db e acct pay sp oo permitted pol lp lock canon oracle obs,
-  wf_case (CPropose db e acct pay sp oo permitted pol lp lock canon oracle obs) = true ->
-  canon_sel_at_boundary (CPropose db e acct pay sp oo permitted pol lp lock canon oracle obs) = true ->
-  run_case (CPropose db e acct pay sp oo permitted pol lp lock canon oracle obs) = true ->
-  prop_case (CPropose db e acct pay sp oo permitted pol lp lock canon oracle obs) = true.
+Theorem C08_bridge_propose : forall db udb e acct pay sp oo permitted pol zc lp tspend lock canon oracle obs,
+  wf_case (CPropose db udb e acct pay sp oo permitted pol zc lp tspend lock canon oracle obs) = true ->
+  canon_sel_at_boundary (CPropose db udb e acct pay sp oo permitted pol zc lp tspend lock canon oracle obs) = true ->
+  run_case (CPropose db udb e acct pay sp oo permitted pol zc lp tspend lock canon oracle obs) = true ->
+  prop_case (CPropose db udb e acct pay sp oo permitted pol zc lp tspend lock canon oracle obs) = true.
 Proof. exact bridge_propose. Qed.
 
-Theorem C08_propose_never_panics : forall change fuel db e tip acct pay sp oo permitted pol lp lock canon,
-  propose_transfer change fuel db e tip acct pay sp oo permitted pol lp lock canon <> Panic.
+Theorem C08_propose_never_panics : forall change fuel db udb e tip acct pay sp oo permitted pol zc lp tspend lock canon,
+  propose_transfer change fuel db udb e tip acct pay sp oo permitted pol zc lp tspend lock canon <> Panic.
 Proof. exact propose_transfer_no_panic. Qed.
 
 (** *** Storing a transaction releases exactly the locks of the outputs it spends *)
@@ -252,6 +271,24 @@ Theorem C08_utxo_where_is_spec : forall q lf u,
   = utxo_spendable (uq_target q) (uq_minconf q) (uq_filter q) (uq_addrs q)
       (match lf with LFUnfiltered => None | LFPolicy _ => Some (uq_owners q) end) u.
 Proof. exact utxo_where_spec. Qed.
+
+(** select_spendable_transparent_outputs (the gather of a transfer's TransparentSpendPolicy): its
+    regenerated WHERE clause additionally demands the ACCOUNT, and a listed address when the
+    policy lists any. *)
+Theorem C08_utxo_gather_where_is_spec : forall q lf u,
+  utxo_gather_passes q lf u
+  = utxo_spendable_acct (gq_target q) (gq_minconf q) (gq_filter q) (gq_acct q) (gq_allow q)
+      (match lf with LFUnfiltered => None | LFPolicy _ => Some (gq_owners q) end) u.
+Proof. exact utxo_gather_where_spec. Qed.
+
+Theorem C08_transfer_coins_spendable : forall udb acct allow target pol zc f tv lf u,
+  In u (select_transparent udb acct allow target pol zc f tv lf) ->
+  In u udb /\ utxo_spendable_acct target (minconf pol zc) f acct allow (owners_opt lf) u = true.
+Proof. exact select_transparent_sound. Qed.
+
+Theorem C08_transfer_coins_nodup : forall udb acct allow target pol zc f tv lf,
+  NoDup (map u_id udb) -> NoDup (map u_id (select_transparent udb acct allow target pol zc f tv lf)).
+Proof. exact select_transparent_nodup. Qed.
 
 Theorem C08_utxo_selected_spendable : forall udb target addrs pol zc f lf u,
   In u (select_utxos udb target addrs pol zc f lf) ->
@@ -293,6 +330,18 @@ Example C08_nonvacuous_shield :
   = Ok [Step [] 200000 [1; 3] 0 [(CP Sapling, 185000)] 15000 (Some 111)].
 Proof. vm_compute. reflexivity. Qed.
 
+(** A transfer of account 0 funded by its coin 1; coin 2 belongs to account 1 although its address is
+    allow-listed, coin 3 is locked by owner 2 (re-gather included). *)
+Example C08_nonvacuous_transparent_transfer :
+  propose_transfer (fun _ _ tl => match tl with [_] => OBal [] 10000 | _ => OInsuff 70000 end) 8
+    []
+    [U 1 0 0 0 60000 (Some 100) None None None true false false None None [] 0;
+     U 2 1 1 0 100000 (Some 100) None None None true false false None None [] 1;
+     U 3 0 0 0 90000 (Some 100) None None None true false false (Some 200) (Some 2) [] 2]
+    (Env 112 (Some 111) []) (Some 111) 0 50000 true false [Sapling] (Pol 1 1) true LExclude (Some (Some [0; 1])) None None
+  = Ok [Step [] 60000 [1] 50000 [] 10000 (Some 111)].
+Proof. vm_compute. reflexivity. Qed.
+
 (** *** Non-vacuity: a wallet with two notes, one locked by owner 2 *)
 Definition ex_db : list note_row :=
   [ R 1 0 Sapling 60000 (Some 100) (Some 100) None 100 true (Some 0) true (Some 0) false false (Some 10) None false None None [];
@@ -306,8 +355,8 @@ Example C08_nonvacuous_select :
 Proof. vm_compute. reflexivity. Qed.
 
 Example C08_nonvacuous_propose :
-  propose_transfer (fun _ l => match l with [] => OInsuff 30000 | _ => OBal [(CP Sapling, 30000)] 10000 end) 8
-    ex_db ex_env (Some 111) 0 20000 true false [Sapling; Orchard] (Pol 1 1) LExclude None None
+  propose_transfer (fun _ l _ => match l with [] => OInsuff 30000 | _ => OBal [(CP Sapling, 30000)] 10000 end) 8
+    ex_db [] ex_env (Some 111) 0 20000 true false [Sapling; Orchard] (Pol 1 1) true LExclude None None None
   = Ok [Step [(Sapling, 1)] 60000 [] 20000 [(CP Sapling, 30000)] 10000 (Some 111)].
 Proof. vm_compute. reflexivity. Qed.
 
@@ -318,8 +367,8 @@ Definition ex_db2 : list note_row :=
     R 2 0 Orchard 1200000 (Some 120) (Some 120) None 120 true (Some 0) true (Some 1) false false (Some 10) None false None None [] ].
 Example C08_nonvacuous_canonical :
   bucketed (Pol 1 1) 12 160 100 = Some (Pol 16 16)
-  /\ propose_transfer (fun a l => match l with [] => OInsuff 1015000 | _ => OBal [(CP Orchard, 185000)] 15000 end) 8
-       ex_db2 (Env 160 (Some 159) []) (Some 159) 0 1000000 true true [Sapling; Orchard] (Pol 1 1) LExclude None
+  /\ propose_transfer (fun a l _ => match l with [] => OInsuff 1015000 | _ => OBal [(CP Orchard, 185000)] 15000 end) 8
+       ex_db2 [] (Env 160 (Some 159) []) (Some 159) 0 1000000 true true [Sapling; Orchard] (Pol 1 1) true LExclude None None
        (Some (CI 12 100 144 true (Some 144) (Some 15000)))
      = Ok [Step [(Orchard, 2)] 1200000 [] 1000000 [(CP Orchard, 185000)] 15000 (Some 144)].
 Proof. vm_compute. split; reflexivity. Qed.
